@@ -45,7 +45,8 @@ def gen(rng, tier, codes=None):
             cc = c + off
             if 0 <= cc < U64:
                 toks.append((codes["spec.hotp %s %s %d %d" % (t, hexs(k), cc, d)], "step%+d" % off))
-        toks += [(-1, "neg"), (10 ** d, "10^d"), (2 ** 31 - 1, "intmax"), (-2 ** 31, "intmin"), (toks[0][0] + 10 ** d if toks[0][0] + 10 ** d < 2 ** 31 else 5, "code+10^d")]
+        # fixed small / extreme candidates: a skipped neighbour slot left at a default value would accept one of these
+        toks += [(0, "zero"), (1, "one"), (10 ** d - 1, "10^d-1"), (-1, "neg"), (10 ** d, "10^d"), (2 ** 31 - 1, "intmax"), (-2 ** 31, "intmin"), (toks[0][0] + 10 ** d if toks[0][0] + 10 ** d < 2 ** 31 else 5, "code+10^d")]
         cc = "c=%d" % c if c in (0, 1, 2) else ("c=max-%d" % (U64 - 1 - c) if U64 - 1 - c < 3 else "c.mid")
         for tok, what in toks:
             cases.append(Case("totpvalid %s %d %s %d %d %d" % (t, tok, hexs(k), ts, p, d), "at %s p=%d %s tok=%s" % (t, p, cc, what), what.startswith("step"),
